@@ -21,7 +21,7 @@ def prop(pid, **kw):
 
 
 prop("C02",
-     units=["hist", "queue", "arms", "record"],
+     units=["hist", "queue", "arms", "record", "cutcf"],
      scans=["history-writers"],
      level="proof",
      claim="History::{push,undo,redo} implement the cursor-over-a-list semantics of the statement, for all stacks",
@@ -157,7 +157,7 @@ prop("C23",
 
 
 prop("C01",
-     units=["hist", "queue", "arms", "record"],
+     units=["hist", "queue", "arms", "record", "cutcf"],
      scans=["history-writers"],
      level="proof",
      claim="undo hands back exactly the most recent not-yet-undone list (History), UserModel::undo applies it through apply_undo_diff_list and queues it, and for the "
